@@ -23,7 +23,7 @@ AS = (1 / 64, 0.25, 0.5, 2.0, 3.0, 10.0, 64.0, 100.0)
 
 def REQUIRED(tier):
     return [f"scale:{m}" for m in SCALES] + ["axis:None", "axis:0", "axis:1", "shape:one_lane", "shape:2d", "shape:1d", "class:constant", "class:zeros", "class:mixed_lanes", "class:ties",
-                                             "class:outliers", "equivariance_checks", "zscore_checks", "lane_checks", "a<0", "via_block", "via_timeseries", "layout:F", "layout:T_view"]
+                                             "class:outliers", "equivariance_checks", "zscore_checks", "lane_checks", "a<0", "via_block", "via_timeseries", "layout:F", "layout:T_view", "dtype:float64_input", "input_unchanged_checks"]
 
 
 def cases(tier, seed):
@@ -112,11 +112,17 @@ def _one(case, j, ctx):
         elif lay == "T_view":
             x = np.ascontiguousarray(x.T).T      # same values and shape, transposed strides
         ctx.count(f"layout:{lay}")
-    y = (a * x.astype(np.float64) + b).astype(np.float32)
+    wide = bool(rng.random() < 0.3)
+    if wide:   # double-precision input: the estimators may then work on the caller's own buffer rather than on a converted copy
+        x = x.astype(np.float64)
+        ctx.count("dtype:float64_input")
+    y = (a * x.astype(np.float64) + b).astype(x.dtype)
     if lay == "F":
         y = np.asfortranarray(y)
+    xkeep, ykeep = np.array(x, copy=True), np.array(y, copy=True)
     one = {"n": 1, "seed": case["seed"], "only": j, "params": {"scale": method, "loc": loc, "shape": list(shape), "axis": axis, "cls": cls, "a": a, "b": b, "layout": lay}}
     one["params"]["layout"] = lay
+    one["params"]["dtype"] = str(x.dtype)
     ctx.evaluated()
     for k in (f"scale:{method}", f"axis:{axis}", f"shape:{shape_cls}", f"class:{cls}"):
         ctx.count(k)
@@ -130,6 +136,10 @@ def _one(case, j, ctx):
             Sy = np.asarray(stats.estimate_scale(y, method, axis), dtype=np.float64)
         except Exception as exc:  # noqa: BLE001
             ctx.violation(f"scale-raised:{lab}:{type(exc).__name__}@{exc_site(exc)}", f"estimate_scale({shape}, {method}, axis={axis}) raised {fmt_exc(exc)}", one)
+            return
+        ctx.count("input_unchanged_checks")
+        if not (np.array_equal(x, xkeep) and np.array_equal(y, ykeep)):
+            ctx.violation(f"input-modified:estimate_scale:{method}", f"estimate_scale({shape}, {method}, axis={axis}) on {x.dtype} data changed the caller's array in place", one)
             return
         lanes, lshape = _lanes(x, axis)
         # ---- (iii)/(iv) lane consistency and shapes
@@ -188,6 +198,9 @@ def _one(case, j, ctx):
             zy = stats.estimate_zscore(y, loc, method, zaxis)
         except Exception as exc:  # noqa: BLE001
             ctx.violation(f"zscore-raised:{lab}:{type(exc).__name__}@{exc_site(exc)}", f"estimate_zscore({shape}, {loc}, {method}, axis={axis}) raised {fmt_exc(exc)}", one)
+            return
+        if not (np.array_equal(x, xkeep) and np.array_equal(y, ykeep)):
+            ctx.violation(f"input-modified:estimate_zscore:{method}:{loc}", f"estimate_zscore({shape}, {loc}, {method}, axis={axis}) on {x.dtype} data changed the caller's array in place", one)
             return
         zxd, zyd = np.asarray(zx.data, dtype=np.float64), np.asarray(zy.data, dtype=np.float64)
         if zxd.shape != x.shape:
